@@ -51,6 +51,7 @@ impl Prop for C05 {
     }
     fn check(&self, c: &Case, st: &mut Stats) -> Result<(), Failure> {
         st.eval();
+        prime(&c.site, &c.spec, c.date, None, prime_selector(&c.site, c.date));
         let times = compute(&c.site, &c.spec, c.date, None);
         if !has_all_keys(&times) {
             return Err(Failure::new("missing-entries", "exactly the 7 entries", gen::fmt_times(&times)));
